@@ -23,7 +23,11 @@ def split_top(s):
 
 
 def rel_of(x, y):
-    return "<" if x < y else ("=" if x == y else ">")
+    try:
+        return "<" if x < y else ("=" if x == y else ">")
+    except TypeError:
+        # structural (in)equality of values that have no order (e.g. whole Access values with / without conditions)
+        return "=" if x == y else "!="
 
 
 class Evaluator:
